@@ -116,6 +116,12 @@ def fault_cases(rng, n):
     return out
 
 
+def as_given(tau):
+    """the pruning threshold as a user writes it: whole numbers as Python ints (prune_deep_snowpack=8), the others as floats"""
+    tau = float(tau)
+    return int(tau) if tau.is_integer() else tau
+
+
 def pick_sites(rng, sites, limit=14):
     """every fault site when there are few; otherwise the first and last plus a random subset that keeps high azimuth modes"""
     if len(sites) <= limit:
@@ -220,7 +226,7 @@ def correspond(ctx):
         em, ms = pC01.EMMODELS[int(rng.integers(0, 2))]
         if made % 2 == 0:
             sc = scenes.random_scene(rng, lossless=False, microstructure=ms, max_layers=5, atmosphere=False, thick=(0.2, 20.0))
-            tau = float(rng.choice([0.5, 1, 2, 4, 6, 10]))
+            tau = as_given(rng.choice([0.5, 1, 2, 4, 6, 10]))
         else:
             # many thin, strongly scattering layers (albedo ~ 0.9): the slowest eigenvalue is well below the extinction, and the layer at
             # which the cumulated depth crosses tau is sensitive to which of the two is accumulated
@@ -230,7 +236,7 @@ def correspond(ctx):
             k = len(sc["thickness"])
             sc["micro"]["corr_length"] = [round(float(v), 7) for v in rng.uniform(2.0e-4, 4.0e-4, k)]
             sc["density"] = [round(float(v), 1) for v in rng.uniform(200, 350, k)]
-            tau = float(rng.choice([2, 4, 6, 8]))
+            tau = as_given(rng.choice([2, 4, 6, 8]))
         sc["emmodel"], sc["nmax"] = em, int(rng.integers(8, 11))
         sp, atm = scenes.build(sc)
         try:
@@ -240,7 +246,7 @@ def correspond(ctx):
             continue
         made += 1
         od = [float(np.min(np.abs(l["beta"])) * l["d"]) for l in c.layers]
-        co.add("dort.prune.depth", f"kept {f2t(tau)} {fs(od)}", str(c.L), C.EXACT, desc={"scene": sc, "tau": tau})
+        co.add("dort.prune.depth", f"kept {f2t(float(tau))} {fs(od)}", str(c.L), C.EXACT, desc={"scene": sc, "tau": tau})
         co.note("pruned" if c.pruned else "not pruned")
         amp = float(np.abs(c.x).max()) * max(float(np.abs(l["Eu"]).max()) for l in c.layers)
         parts = "Abe" if amp < 1e5 else "Ab"
@@ -438,7 +444,7 @@ def oracle(ctx, hints, effort):
             if r:
                 add(r[0], "diagonalisation methods disagree", {"kind": "methods", "scene": sc, "active": active}, r[1], r[2])
             if not active:
-                tau = float(rng.choice([6, 8, 10, 15]))
+                tau = as_given(rng.choice([6, 8, 10, 15]))
                 deep = json.loads(json.dumps(sc)); deep["thickness"] = [t * 10 for t in deep["thickness"]]
                 evals += 1
                 r = check_prune(deep, tau)
